@@ -206,6 +206,11 @@ class C09(P.Property):
             res.counters = dict(run.sim.counters)
         finally:
             run.finish()
+        if run.fd_growth >= 4 and run.fd_growth >= 0.5 * run.sim.nconn and not res.violations:
+            # every search is one more connection; descriptors that stay open per connection end in EMFILE for a long enough sequence
+            res.violations.append(V("C09.search", "RESOURCE_LEAK", f"the run's {run.sim.nconn} connections left {run.fd_growth} file descriptors open in the "
+                                                                   f"process (none are left open on a run of the unchanged kind): a long enough sequence of "
+                                                                   f"searches runs out of descriptors and stops being answered", site="descriptor-leak"))
         res.probes = out["probes"]
         res.cover = out["cover"]
         res.inconclusive = out.get("inconclusive")
